@@ -14,7 +14,10 @@ import TmcgProofs.Aio
      closed unless plain mode with nothing written -- library as repaired by 531e2c0), `closed_link_silent`,
      `nb_send_mid_message(_closes)`, `nb_recv_fragmentation_invariant`, `nb_accepted_prefix` (any sequence of
      Sends, time-outs included: delivered <+: accepted); `timeout_splice` documents the old defect;
-   * `peers_not_mixed` (`recvN`, three schedulers).
+   * `peers_not_mixed` (`recvN`, three schedulers);
+   * integer arrays (`sendArr`, `recvArr`, per-sender queues): `array_roundtrip`, `arrays_peers_not_mixed`
+     (+ `fit_uniform`), `array_prefix_under_tamper` (array layer over any in-order value source), `arrCheck_AI`
+     (the "out of order" branch is unreachable when the sizes asked for are the sizes sent), `sendArrGo_select`.
 -/
 namespace Tmcg.Aio2
 open Tmcg Tmcg.Aio Tmcg.Codec
@@ -2178,6 +2181,649 @@ theorem peers_not_mixed (md : Mode) (hmd : ModeOk md) (crs : Nat → Crypto) (hc
     exact (init2_inv md hmd (crs i) sz (ivs i) (msgs i) (hok i)).inv
   obtain ⟨pend, hI⟩ := mrun_inv md hmd crs hcrs sz hsz ivs hivs n hn msgs ops _ msgs h0
   exact ⟨fun i => ⟨pend i, (hI.split i).symm⟩, hI.idx, hI.nofail⟩
+
+/-! ## integer arrays -/
+
+/-- the single values the arrays `arrs` travel as (with the delimiter after each array in the chunked mode of
+    the select class) -/
+def encArrs (md : Mode) (arrs : List (List Int)) : List Int := arrs.flatMap (arrItems md)
+
+theorem encArrs_cons (md : Mode) (a : List Int) (more : List (List Int)) :
+    encArrs md (a :: more) = arrItems md a ++ encArrs md more := by
+  simp [encArrs]
+
+theorem append_split {α} (q rest x y : List α) (h : q ++ rest = x ++ y) (hl : x.length ≤ q.length) :
+    ∃ q2, q = x ++ q2 ∧ q2 ++ rest = y := by
+  rcases List.append_eq_append_iff.mp h with ⟨as, h1, h2⟩ | ⟨bs, h1, h2⟩
+  · -- x = q ++ as
+    have : as = [] := by
+      have := congrArg List.length h1
+      simp only [List.length_append] at this
+      exact List.length_eq_zero_iff.mp (by omega)
+    subst this
+    exact ⟨[], by simpa using h1.symm, by simpa using h2⟩
+  · exact ⟨bs, h1, h2.symm⟩
+
+/-- the array layer's invariant for one sender: the queue followed by the values still to come is the encoding
+    of the arrays not yet handed out -- followed by `tl`, the items of an array whose `Send(vector)` failed half
+    way (empty when there is none) --, and what was handed out are the first arrays, unchanged -/
+def AI (md : Mode) (arrs : List (List Int)) (tl : List Int) (q rest : List Int) (got : List (List Int)) : Prop :=
+  q ++ rest = encArrs md (arrs.drop got.length) ++ tl ∧ got = arrs.take got.length
+
+/-- the size the caller asks for is the size of the next array of this sender; if it has none left, the size
+    asked for is more than what a failed `Send(vector)` may have left behind (`tl = []`: a non-empty array is
+    asked for, or the mode has delimiters) -/
+def Fit (md : Mode) (k : Nat) (tl : List Int) (todo : List (List Int)) : Prop :=
+  match todo with
+  | a :: _ => a.length = k
+  | [] => tl.length < k + (if md.delim then 1 else 0)
+
+theorem take_succ_of_drop {α} (l : List α) (n : Nat) (a : α) (more : List α) (h : l.drop n = a :: more) :
+    l.take (n + 1) = l.take n ++ [a] ∧ l.drop (n + 1) = more := by
+  have hlt : n < l.length := by
+    by_contra hc
+    rw [List.drop_eq_nil_of_le (by omega)] at h; simp at h
+  have h1 := List.drop_eq_getElem_cons hlt
+  rw [h1] at h
+  simp only [List.cons.injEq] at h
+  refine ⟨?_, h.2⟩
+  rw [List.take_succ_eq_append_getElem hlt, h.1]
+
+/-- the queue test of `Receive(vector)` under the invariant: it either hands out exactly the next array of
+    the sender, or leaves the queue alone -- the "out of order" branch is never entered -/
+theorem arrCheck_AI (md : Mode) (arrs : List (List Int)) (tl q rest : List Int) (got : List (List Int))
+    (m : List Int) (h : AI md arrs tl q rest got) (hfit : Fit md m.length tl (arrs.drop got.length)) :
+    ((arrCheck md q m).2.2 = true ∧ AI md arrs tl (arrCheck md q m).1 rest (got ++ [(arrCheck md q m).2.1])) ∨
+    ((arrCheck md q m).2.2 = false ∧ (arrCheck md q m).1 = q) := by
+  obtain ⟨hq, hg⟩ := h
+  unfold arrCheck
+  simp only []
+  cases hd : arrs.drop got.length with
+  | nil =>
+    rw [hd] at hq hfit
+    have hql : q.length ≤ tl.length := by
+      have := congrArg List.length hq
+      simp only [encArrs, List.flatMap_nil, List.nil_append, List.length_append] at this
+      omega
+    simp only [Fit] at hfit
+    right
+    by_cases hdl : md.delim = true
+    · simp only [hdl, if_true] at hfit ⊢
+      rw [if_neg (by omega)]; exact ⟨rfl, rfl⟩
+    · simp only [hdl, Bool.false_eq_true, if_false] at hfit ⊢
+      rw [if_neg (by omega)]; exact ⟨rfl, rfl⟩
+  | cons a more =>
+    rw [hd] at hq hfit
+    simp only [Fit] at hfit
+    obtain ⟨ht, hdr⟩ := take_succ_of_drop arrs got.length a more hd
+    have hAI : ∀ q2, q2 ++ rest = encArrs md more ++ tl → AI md arrs tl q2 rest (got ++ [a]) := by
+      intro q2 h2
+      constructor
+      · rw [List.length_append, List.length_singleton, hdr]; exact h2
+      · rw [List.length_append, List.length_singleton, ht, ← hg]
+    rw [encArrs_cons, List.append_assoc] at hq
+    by_cases hdl : md.delim = true
+    · simp only [hdl, if_true]
+      have hit : arrItems md a = a ++ [arrDelim] := by simp [arrItems, hdl]
+      rw [hit] at hq
+      by_cases hlen : q.length ≥ m.length + 1
+      · obtain ⟨q2, hq2, hrest⟩ := append_split q rest (a ++ [arrDelim]) (encArrs md more ++ tl) hq
+          (by simp only [List.length_append, List.length_singleton]; omega)
+        left
+        rw [if_pos hlen]
+        have htake : q.take m.length = a := by
+          rw [hq2, ← hfit, List.append_assoc]; exact List.take_left
+        have hdrop : q.drop m.length = arrDelim :: q2 := by
+          rw [hq2, ← hfit, List.append_assoc]; simp
+        simp only [htake, hdrop, List.head?_cons, if_true, List.tail_cons]
+        exact ⟨trivial, hAI q2 hrest⟩
+      · right
+        rw [if_neg hlen]; exact ⟨rfl, rfl⟩
+    · simp only [hdl, Bool.false_eq_true, if_false]
+      have hit : arrItems md a = a := by simp [arrItems, hdl]
+      rw [hit] at hq
+      by_cases hlen : q.length ≥ m.length
+      · obtain ⟨q2, hq2, hrest⟩ := append_split q rest a (encArrs md more ++ tl) hq (by omega)
+        left
+        rw [if_pos hlen]
+        have htake : q.take m.length = a := by rw [hq2, ← hfit]; exact List.take_left
+        have hdrop : q.drop m.length = q2 := by rw [hq2, ← hfit]; exact List.drop_left
+        simp only [htake, hdrop]
+        exact ⟨trivial, hAI q2 hrest⟩
+      · right
+        rw [if_neg hlen]; exact ⟨rfl, rfl⟩
+
+theorem AI_feed (md : Mode) (arrs : List (List Int)) (tl q ps : List Int) (v : Int) (got : List (List Int))
+    (h : AI md arrs tl q (v :: ps) got) : AI md arrs tl (q ++ [v]) ps got := by
+  refine ⟨?_, h.2⟩
+  rw [List.append_assoc]; exact h.1
+
+theorem AI_prefix (md : Mode) (arrs : List (List Int)) (tl q rest : List Int) (got : List (List Int))
+    (h : AI md arrs tl q rest got) : got <+: arrs := by
+  rw [h.2]; exact List.take_prefix _ _
+
+/-- the array layer on its own, over ANY behaviour of the links underneath that hands each sender's values
+    up in sending order (which is what an untampered link does -- `link_prefix` -- and what an authenticated
+    link does under tampering, up to a MAC forgery -- `chunked_integrity`): a state is the queues, the values
+    still to come and the arrays handed out; a step is a queue test for some sender and size (`check`), one
+    more value of some sender arriving in its queue (`feed`), or nothing (a call that found nothing, a link
+    that failed and stopped) -/
+inductive AReach (md : Mode) (arrs : Nat → List (List Int)) (tls : Nat → List Int) :
+    (Nat → List Int) → (Nat → List Int) → (Nat → List (List Int)) → Prop where
+  | init : AReach md arrs tls (fun _ => []) (fun i => encArrs md (arrs i) ++ tls i) (fun _ => [])
+  | feed (qs rest got) (j : Nat) (v : Int) (ps : List Int) : AReach md arrs tls qs rest got → rest j = v :: ps →
+      AReach md arrs tls (Function.update qs j (qs j ++ [v])) (Function.update rest j ps) got
+  | check (qs rest got) (i : Nat) (m : List Int) : AReach md arrs tls qs rest got →
+      Fit md m.length (tls i) ((arrs i).drop (got i).length) →
+      AReach md arrs tls (Function.update qs i (arrCheck md (qs i) m).1) rest
+        (if (arrCheck md (qs i) m).2.2 then Function.update got i (got i ++ [(arrCheck md (qs i) m).2.1]) else got)
+
+theorem AReach_inv (md : Mode) (arrs : Nat → List (List Int)) (tls : Nat → List Int) (qs rest : Nat → List Int)
+    (got : Nat → List (List Int)) (h : AReach md arrs tls qs rest got) :
+    ∀ i, AI md (arrs i) (tls i) (qs i) (rest i) (got i) := by
+  induction h with
+  | init => intro i; exact ⟨by simp, by simp⟩
+  | feed qs rest got j v ps _ hr ih =>
+    intro i
+    by_cases hij : i = j
+    · subst hij
+      rw [Function.update_self, Function.update_self]
+      have := ih i; rw [hr] at this
+      exact AI_feed md _ _ _ _ _ _ this
+    · rw [Function.update_of_ne hij, Function.update_of_ne hij]; exact ih i
+  | check qs rest got j m _ hfit ih =>
+    intro i
+    by_cases hij : i = j
+    · subst hij
+      rw [Function.update_self]
+      rcases arrCheck_AI md (arrs i) (tls i) (qs i) (rest i) (got i) m (ih i) hfit with ⟨h1, h2⟩ | ⟨h1, h2⟩
+      · rw [h1, if_pos rfl, Function.update_self]; exact h2
+      · rw [h1, h2]; simpa using ih i
+    · rw [Function.update_of_ne hij]
+      split
+      · rw [Function.update_of_ne hij]; exact ih i
+      · exact ih i
+
+/-- **array_prefix_under_tamper**: whatever happens to the wire, as long as the links hand each sender's values
+    up in sending order and otherwise stop -- the guarantee of authentication, `chunked_integrity` -- and the
+    caller asks for the size of the array it expects next from the sender the scheduler names: the arrays
+    returned for sender `i` are a prefix of the arrays sender `i` sent -- complete, unchanged, in order; never a
+    partial array, never values of two arrays or two senders in one. -/
+theorem array_prefix_under_tamper (md : Mode) (arrs : Nat → List (List Int)) (tls : Nat → List Int)
+    (qs rest : Nat → List Int) (got : Nat → List (List Int)) (h : AReach md arrs tls qs rest got) :
+    ∀ i, got i <+: arrs i :=
+  fun i => AI_prefix md _ _ _ _ _ (AReach_inv md arrs tls qs rest got h i)
+
+/-! ### arrays over the real links -/
+
+structure AWorld where
+  an : ANode
+  wires : Nat → Bytes
+  words : List Nat := []
+  got : Nat → List (List Int) := fun _ => []     -- arrays returned with `i_out = i`, in order
+
+/-- `.push i k`: `k` more bytes of link `i` arrive; `.recv s d`: `Receive(vector, i_out, s, 0)` for a vector of
+    the size `ksz` the application expects, which may depend on how many arrays it has from each sender -/
+def astep (md : Mode) (crs : Nat → Crypto) (n : Nat) (ksz : (Nat → Nat) → Nat) (w : AWorld) : MOp → AWorld
+  | .push i k =>
+    match w.an.node.peers[i]? with
+    | none => w
+    | some p =>
+      { w with an := { w.an with node := { w.an.node with peers := w.an.node.peers.set i { p with pipe := p.pipe ++ (w.wires i).take k } } },
+               wires := Function.update w.wires i ((w.wires i).drop k) }
+  | .recv s iDirect =>
+    let r := recvArr md crs n s (iDirect % n) w.an w.words (List.replicate (ksz (fun i => (w.got i).length)) 0)
+    { w with an := r.1, words := r.2.1,
+             got := if r.2.2.ok then Function.update w.got r.2.2.iOut (w.got r.2.2.iOut ++ [r.2.2.m]) else w.got }
+
+def arun (md : Mode) (crs : Nat → Crypto) (n : Nat) (ksz : (Nat → Nat) → Nat) (w : AWorld) (ops : List MOp) : AWorld :=
+  ops.foldl (astep md crs n ksz) w
+
+structure AInvW (md : Mode) (crs : Nat → Crypto) (sz : Int → Nat) (ivs : Nat → Bytes) (n : Nat)
+    (arrs : Nat → List (List Int)) (tls : Nat → List Int) (w : AWorld) (pend : Nat → List Int) : Prop where
+  len : w.an.node.peers.length = n
+  qlen : w.an.queues.length = n
+  cur : w.an.node.cur < n
+  bcur : w.an.bcur < n
+  links : PeersInv md crs sz ivs w.wires pend w.an.node.peers
+  arr : ∀ i q, w.an.queues[i]? = some q → AI md (arrs i) (tls i) q (pend i) (w.got i)
+  out : ∀ i, n ≤ i → w.got i = []
+
+theorem set_self {α} (l : List α) (i : Nat) (x : α) (h : l[i]? = some x) : l.set i x = l := by
+  apply List.ext_getElem?
+  intro j
+  by_cases hij : i = j
+  · subst hij
+    rw [List.getElem?_set]
+    have hl : i < l.length := by
+      by_contra hc; rw [List.getElem?_eq_none (by omega)] at h; simp at h
+    rw [if_pos rfl, if_pos hl, h]
+  · rw [List.getElem?_set_ne hij]
+
+theorem astep_inv (md : Mode) (hmd : ModeOk md) (crs : Nat → Crypto) (hcrs : ∀ i, CrOk md (crs i))
+    (sz : Int → Nat) (hsz : SzOk sz) (ivs : Nat → Bytes) (hivs : ∀ i, (ivs i).length = md.blklen)
+    (n : Nat) (hn : 0 < n) (arrs : Nat → List (List Int)) (tls : Nat → List Int) (ksz : (Nat → Nat) → Nat)
+    (hfit : ∀ c : Nat → Nat, ∀ i, i < n → Fit md (ksz c) (tls i) ((arrs i).drop (c i)))
+    (w : AWorld) (pend : Nat → List Int) (h : AInvW md crs sz ivs n arrs tls w pend) (op : MOp) :
+    ∃ pend', AInvW md crs sz ivs n arrs tls (astep md crs n ksz w op) pend' := by
+  cases op with
+  | push i k =>
+    simp only [astep]
+    cases hp : w.an.node.peers[i]? with
+    | none => exact ⟨pend, h⟩
+    | some p =>
+      simp only []
+      refine ⟨pend, ⟨by simp [h.len], h.qlen, h.cur, h.bcur, ?_, h.arr, h.out⟩⟩
+      intro j q hj
+      replace hj : (w.an.node.peers.set i { p with pipe := p.pipe ++ (w.wires i).take k })[j]? = some q := hj
+      by_cases hij : i = j
+      · subst hij
+        simp only [List.getElem?_set] at hj
+        have hil : i < w.an.node.peers.length := by
+          by_contra hc
+          rw [List.getElem?_eq_none (by omega)] at hp
+          simp at hp
+        rw [if_pos hil] at hj
+        have hj' := Option.some.inj hj
+        subst hj'
+        have := h.links i p hp
+        show Inv2 md (crs i) sz (ivs i) p.rx ((p.pipe ++ (w.wires i).take k) ++ Function.update w.wires i ((w.wires i).drop k) i) (pend i)
+        rw [Function.update_self, List.append_assoc, List.take_append_drop]
+        exact this
+      · simp only [List.getElem?_set_ne hij] at hj
+        have := h.links j q hj
+        show Inv2 md (crs j) sz (ivs j) q.rx (q.pipe ++ Function.update w.wires i ((w.wires i).drop k) j) (pend j)
+        rw [Function.update_of_ne (Ne.symm hij)]
+        exact this
+  | recv s iDirect =>
+    have hid : iDirect % n < n := Nat.mod_lt _ hn
+    simp only [astep]
+    set k := ksz (fun i => (w.got i).length) with hk
+    set m0 : List Int := List.replicate k 0 with hm0
+    have hm0l : m0.length = k := by simp [hm0]
+    unfold recvArr
+    cases hpk : pick n s w.an.bcur w.words (iDirect % n) with
+    | none => exact ⟨pend, ⟨h.len, h.qlen, h.cur, h.bcur, h.links, h.arr, h.out⟩⟩
+    | some r =>
+      obtain ⟨i, b', ws1⟩ := r
+      obtain ⟨hi, hb'⟩ := pick_lt n hn s w.an.bcur w.words (iDirect % n) h.bcur hid i b' ws1 hpk
+      have hil : i < w.an.queues.length := by rw [h.qlen]; exact hi
+      have hget : w.an.queues[i]? = some w.an.queues[i] := List.getElem?_eq_getElem hil
+      simp only [hget]
+      have hAI := h.arr i _ hget
+      have hf := hfit (fun i => (w.got i).length) i hi
+      rw [← hk, ← hm0l] at hf
+      rcases arrCheck_AI md (arrs i) (tls i) _ (pend i) (w.got i) m0 hAI hf with ⟨hd, hAI'⟩ | ⟨hd, hq⟩
+      · -- the next array of sender i is handed out
+        simp only [hd, if_true]
+        refine ⟨pend, ⟨h.len, by simp [h.qlen], h.cur, hb', h.links, ?_, ?_⟩⟩
+        · intro j q hj
+          replace hj : (w.an.queues.set i (arrCheck md w.an.queues[i] m0).1)[j]? = some q := hj
+          by_cases hij : i = j
+          · subst hij
+            rw [List.getElem?_set, if_pos rfl, if_pos hil] at hj
+            have := Option.some.inj hj; subst this
+            show AI md (arrs i) (tls i) _ (pend i) (Function.update w.got i _ i)
+            rw [Function.update_self]; exact hAI'
+          · rw [List.getElem?_set_ne hij] at hj
+            show AI md (arrs j) (tls j) q (pend j) (Function.update w.got i _ j)
+            rw [Function.update_of_ne (Ne.symm hij)]; exact h.arr j q hj
+        · intro j hj
+          show Function.update w.got i _ j = []
+          rw [Function.update_of_ne (by omega)]; exact h.out j hj
+      · -- not enough in the queue: one single-value Receive
+        simp only [hd, Bool.false_eq_true, if_false, hq]
+        rw [set_self _ _ _ hget]
+        obtain ⟨hl, hc, hres⟩ := recvN_spec md hmd crs hcrs sz hsz ivs hivs w.wires n hn s (iDirect % n) hid n
+          w.an.node ws1 pend h.len h.cur h.links
+        rcases hres with ⟨h1, h2⟩ | ⟨v, ps, h1, h2, h3, h4⟩
+        · rw [h1]
+          exact ⟨pend, ⟨hl, h.qlen, hc, hb', h2, h.arr, h.out⟩⟩
+        · rw [h1]
+          simp only []
+          set j := (recvN md crs n s (iDirect % n) n w.an.node ws1).2.2.iOut with hj
+          have hjl : j < w.an.queues.length := by rw [h.qlen]; exact h2
+          refine ⟨Function.update pend j ps, ⟨hl, by simp [h.qlen], hc, hb', h4, ?_, h.out⟩⟩
+          intro t q ht
+          replace ht : (w.an.queues.set j (w.an.queues.getD j [] ++ [v]))[t]? = some q := ht
+          by_cases hjt : j = t
+          · subst hjt
+            rw [List.getElem?_set, if_pos rfl, if_pos hjl] at ht
+            have := Option.some.inj ht; subst this
+            rw [Function.update_self]
+            have hgd : w.an.queues.getD j [] = w.an.queues[j] := by
+              rw [List.getD_eq_getElem?_getD, List.getElem?_eq_getElem hjl]; rfl
+            rw [hgd]
+            have := h.arr j _ (List.getElem?_eq_getElem hjl)
+            rw [h3] at this
+            exact AI_feed md _ _ _ _ _ _ this
+          · rw [List.getElem?_set_ne hjt] at ht
+            rw [Function.update_of_ne (Ne.symm hjt)]
+            exact h.arr t q ht
+
+theorem arun_inv (md : Mode) (hmd : ModeOk md) (crs : Nat → Crypto) (hcrs : ∀ i, CrOk md (crs i))
+    (sz : Int → Nat) (hsz : SzOk sz) (ivs : Nat → Bytes) (hivs : ∀ i, (ivs i).length = md.blklen)
+    (n : Nat) (hn : 0 < n) (arrs : Nat → List (List Int)) (tls : Nat → List Int) (ksz : (Nat → Nat) → Nat)
+    (hfit : ∀ c : Nat → Nat, ∀ i, i < n → Fit md (ksz c) (tls i) ((arrs i).drop (c i))) :
+    ∀ (ops : List MOp) (w : AWorld) (pend : Nat → List Int), AInvW md crs sz ivs n arrs tls w pend →
+      ∃ pend', AInvW md crs sz ivs n arrs tls (arun md crs n ksz w ops) pend' := by
+  intro ops
+  induction ops with
+  | nil => intro w pend h; exact ⟨pend, h⟩
+  | cons op ops ih =>
+    intro w pend h
+    obtain ⟨p1, h1⟩ := astep_inv md hmd crs hcrs sz hsz ivs hivs n hn arrs tls ksz hfit w pend h op
+    exact ih _ p1 h1
+
+/-- the fresh object whose `n` input links carry the given value streams -/
+def aworldOf (n : Nat) (wires : Nat → Bytes) (words : List Nat) : AWorld :=
+  { an := { node := { peers := List.replicate n {} }, queues := List.replicate n [] }, wires := wires, words := words }
+
+/-- the general statement: link `i` carries the values of the arrays `arrs i`, possibly followed by the first
+    items `tls i` of an array that was not sent completely -/
+theorem arrays_prefix_general (md : Mode) (hmd : ModeOk md) (crs : Nat → Crypto) (hcrs : ∀ i, CrOk md (crs i))
+    (sz : Int → Nat) (hsz : SzOk sz) (ivs : Nat → Bytes) (hivs : ∀ i, (ivs i).length = md.blklen)
+    (n : Nat) (hn : 0 < n) (arrs : Nat → List (List Int)) (tls : Nat → List Int)
+    (hok : ∀ i, OkSeq md sz {} (encArrs md (arrs i) ++ tls i))
+    (ksz : (Nat → Nat) → Nat) (hfit : ∀ c : Nat → Nat, ∀ i, i < n → Fit md (ksz c) (tls i) ((arrs i).drop (c i)))
+    (words : List Nat) (ops : List MOp) :
+    ∀ i, (arun md crs n ksz (aworldOf n (fun i => wireOf md (crs i) sz (ivs i) (encArrs md (arrs i) ++ tls i)) words) ops).got i
+        <+: arrs i ∧
+      (n ≤ i → (arun md crs n ksz (aworldOf n (fun i => wireOf md (crs i) sz (ivs i) (encArrs md (arrs i) ++ tls i)) words) ops).got i = []) := by
+  have h0 : AInvW md crs sz ivs n arrs tls
+      (aworldOf n (fun i => wireOf md (crs i) sz (ivs i) (encArrs md (arrs i) ++ tls i)) words)
+      (fun i => encArrs md (arrs i) ++ tls i) := by
+    refine ⟨by simp [aworldOf], by simp [aworldOf], hn, hn, ?_, ?_, fun _ _ => rfl⟩
+    · intro i p hp
+      have hp' : p = {} := by
+        simp only [aworldOf] at hp
+        rw [List.getElem?_replicate] at hp
+        split at hp
+        · simp only [Option.some.injEq] at hp; exact hp.symm
+        · simp at hp
+      subst hp'
+      exact (init2_inv md hmd (crs i) sz (ivs i) _ (hok i)).inv
+    · intro i q hq
+      have hq' : q = [] := by
+        simp only [aworldOf] at hq
+        rw [List.getElem?_replicate] at hq
+        split at hq
+        · simp only [Option.some.injEq] at hq; exact hq.symm
+        · simp at hq
+      subst hq'
+      exact ⟨by simp [aworldOf], by simp [aworldOf]⟩
+  obtain ⟨pend, hI⟩ := arun_inv md hmd crs hcrs sz hsz ivs hivs n hn arrs tls ksz hfit ops _ _ h0
+  intro i
+  refine ⟨?_, hI.out i⟩
+  by_cases hi : i < n
+  · have hil : i < (arun md crs n ksz (aworldOf n (fun i => wireOf md (crs i) sz (ivs i) (encArrs md (arrs i) ++ tls i)) words) ops).an.queues.length := by
+      rw [hI.qlen]; exact hi
+    exact AI_prefix md _ _ _ _ _ (hI.arr i _ (List.getElem?_eq_getElem hil))
+  · rw [hI.out i (by omega)]; exact List.nil_prefix
+
+/-- the fresh object whose `n` input links carry what `n` senders wrote with `Send(vector)` -/
+def aworld0 (md : Mode) (crs : Nat → Crypto) (sz : Int → Nat) (ivs : Nat → Bytes) (n : Nat)
+    (arrs : Nat → List (List Int)) (words : List Nat) : AWorld :=
+  aworldOf n (fun i => wireOf md (crs i) sz (ivs i) (encArrs md (arrs i))) words
+
+/-- **arrays_peers_not_mixed**: `n` senders, each sending arrays with `Send(vector)` (every value accepted);
+    the receiver calls `Receive(vector)` with any of the three schedulers (any coins, any direct index), each
+    time for the size it expects (`Fit`: the size of the next array of whichever sender the scheduler names --
+    e.g. all arrays of one size), under every fragmentation and interleaving of the arrivals on the `n` links.
+    The arrays returned with `i_out = i` are a prefix of the arrays sender `i` sent: complete, unchanged, in
+    order, at most once; no value of another array or of another sender in them.  The "out of order" branch of
+    the chunked mode is never entered. -/
+theorem arrays_peers_not_mixed (md : Mode) (hmd : ModeOk md) (crs : Nat → Crypto) (hcrs : ∀ i, CrOk md (crs i))
+    (sz : Int → Nat) (hsz : SzOk sz) (ivs : Nat → Bytes) (hivs : ∀ i, (ivs i).length = md.blklen)
+    (n : Nat) (hn : 0 < n) (arrs : Nat → List (List Int)) (hok : ∀ i, OkSeq md sz {} (encArrs md (arrs i)))
+    (ksz : (Nat → Nat) → Nat) (hfit : ∀ c : Nat → Nat, ∀ i, i < n → Fit md (ksz c) [] ((arrs i).drop (c i)))
+    (words : List Nat) (ops : List MOp) :
+    ∀ i, (arun md crs n ksz (aworld0 md crs sz ivs n arrs words) ops).got i <+: arrs i ∧
+      (n ≤ i → (arun md crs n ksz (aworld0 md crs sz ivs n arrs words) ops).got i = []) := by
+  have := arrays_prefix_general md hmd crs hcrs sz hsz ivs hivs n hn arrs (fun _ => [])
+    (fun i => by simpa using hok i) ksz hfit words ops
+  simpa [aworld0] using this
+
+/-- all arrays of all senders have the common size `k ≥ 1`, that is what the receiver asks for, and what a
+    failed `Send(vector)` left behind is less than an array (with its delimiter) -/
+theorem fit_uniform (md : Mode) (n k : Nat) (arrs : Nat → List (List Int)) (tls : Nat → List Int)
+    (hsize : ∀ i a, a ∈ arrs i → a.length = k)
+    (htl : ∀ i, (tls i).length < k + (if md.delim then 1 else 0)) :
+    ∀ c : Nat → Nat, ∀ i, i < n → Fit md ((fun _ => k) c) (tls i) ((arrs i).drop (c i)) := by
+  intro c i _
+  cases hd : (arrs i).drop (c i) with
+  | nil => exact htl i
+  | cons a more =>
+    show a.length = k
+    apply hsize i a
+    have : a ∈ (arrs i).drop (c i) := by rw [hd]; simp
+    exact List.mem_of_mem_drop this
+
+/-- the receiver of one sender asks for the size of the next array it has not yet received (for any size once
+    it has them all) -/
+def nextSize (arrs0 : List (List Int)) (c : Nat → Nat) : Nat :=
+  match arrs0.drop (c 0) with
+  | a :: _ => a.length
+  | [] => 1
+
+/-- **array_roundtrip**: one sender, any list of arrays of any sizes -- empty ones included: in the stream
+    modes an empty array puts nothing on the wire and `Receive` of an empty vector returns true at once without
+    looking at anything; in the chunked mode of the select class it travels as a lone delimiter.  Under every
+    fragmentation and every interleaving of arrivals and `Receive(vector)` calls (each for the size of the next
+    array expected) the arrays returned are a prefix of the arrays sent: each complete and unchanged, in order,
+    at most once, no element of one array in another.  (Liveness -- all arrays eventually returned -- is observed
+    on the real objects by `prop.aio2.arrays` and proved for single values only, `link_complete`.) -/
+theorem array_roundtrip (md : Mode) (hmd : ModeOk md) (cr : Crypto) (hcr : CrOk md cr) (sz : Int → Nat)
+    (hsz : SzOk sz) (iv : Bytes) (hiv : iv.length = md.blklen) (arrs0 : List (List Int))
+    (hok : OkSeq md sz {} (encArrs md arrs0)) (words : List Nat) (ops : List MOp) :
+    (arun md (fun _ => cr) 1 (nextSize arrs0) (aworld0 md (fun _ => cr) sz (fun _ => iv) 1 (fun _ => arrs0) words) ops).got 0
+      <+: arrs0 := by
+  refine (arrays_peers_not_mixed md hmd (fun _ => cr) (fun _ => hcr) sz hsz (fun _ => iv) (fun _ => hiv) 1
+    (by omega) (fun _ => arrs0) (fun _ => hok) (nextSize arrs0) ?_ words ops 0).1
+  intro c i hi
+  have hi0 : i = 0 := by omega
+  subst hi0
+  unfold nextSize
+  cases hd : arrs0.drop (c 0) with
+  | nil => show ([] : List Int).length < 1 + _; simp
+  | cons a more => rfl
+
+theorem sendAll2_append (md : Mode) (cr : Crypto) (iv : Bytes) (sz : Int → Nat) :
+    ∀ (xs ys : List Int) (tx tx1 tx2 : Tx2) (w1 w2 : Bytes),
+      sendAll2 md cr iv sz tx xs = some (tx1, w1) → sendAll2 md cr iv sz tx1 ys = some (tx2, w2) →
+      sendAll2 md cr iv sz tx (xs ++ ys) = some (tx2, w1 ++ w2) := by
+  intro xs
+  induction xs with
+  | nil =>
+    intro ys tx tx1 tx2 w1 w2 h1 h2
+    simp only [sendAll2, Option.some.injEq, Prod.mk.injEq] at h1
+    obtain ⟨rfl, rfl⟩ := h1
+    simpa using h2
+  | cons x xs ih =>
+    intro ys tx tx1 tx2 w1 w2 h1 h2
+    rw [sendAll2] at h1
+    cases hs : send2 md cr iv tx x (sz (tmpOf md x)) with
+    | none => simp [hs] at h1
+    | some r =>
+      obtain ⟨t, w⟩ := r
+      simp only [hs] at h1
+      cases hs2 : sendAll2 md cr iv sz t xs with
+      | none => simp [hs2] at h1
+      | some r2 =>
+        obtain ⟨t2, ws⟩ := r2
+        simp only [hs2, Option.some.injEq, Prod.mk.injEq] at h1
+        obtain ⟨rfl, rfl⟩ := h1
+        have := ih ys t t2 tx2 ws w2 hs2 h2
+        rw [List.cons_append, sendAll2, hs]
+        simp only [this, List.append_assoc]
+
+/-- the sender side (select class, library as repaired by a324ab4): a `Send(vector)` that returns true has
+    written what the single `Send`s of its items write, nothing else; one that returns false has written the
+    frames of the `j` items in front of the refused one -- they stay on the link -- and, if `j > 0` (counting
+    from the start of the array), the link is closed -/
+theorem sendArrGo_select (md : Mode) (hcls : md.cls = .select) (cr : Crypto) (iv : Bytes) (sz : Int → Nat) :
+    ∀ (ms : List Int) (idx : Nat) (tx : Tx2) (acc : Bytes),
+      ((sendArrGo md cr iv idx tx ms (ms.map (fun m => sz (tmpOf md m))) acc).1 = true ∧
+        ∃ tx' w, sendAll2 md cr iv sz tx ms = some (tx', w) ∧
+          sendArrGo md cr iv idx tx ms (ms.map (fun m => sz (tmpOf md m))) acc = (true, tx', acc ++ w)) ∨
+      ((sendArrGo md cr iv idx tx ms (ms.map (fun m => sz (tmpOf md m))) acc).1 = false ∧
+        ∃ j tx1 w, j < ms.length ∧ sendAll2 md cr iv sz tx (ms.take j) = some (tx1, w) ∧
+          sendArrGo md cr iv idx tx ms (ms.map (fun m => sz (tmpOf md m))) acc =
+            (false, { tx1 with isOpen := tx1.isOpen && (idx + j == 0) }, acc ++ w)) := by
+  intro ms
+  induction ms with
+  | nil => intro idx tx acc; left; exact ⟨rfl, tx, [], rfl, by simp [sendArrGo]⟩
+  | cons m ms ih =>
+    intro idx tx acc
+    rw [sendArrGo]
+    simp only [hcls, beq_self_eq_true, if_true, List.map_cons, List.headD_cons, List.tail_cons]
+    cases hs : send2 md cr iv tx m (sz (tmpOf md m)) with
+    | none =>
+      right
+      refine ⟨rfl, 0, tx, [], by simp, rfl, ?_⟩
+      simp
+    | some r =>
+      obtain ⟨tx1, w1⟩ := r
+      simp only []
+      rcases ih (idx + 1) tx1 (acc ++ w1) with ⟨h1, tx', w, h2, h3⟩ | ⟨h1, j, t1, w, hj, h2, h3⟩
+      · left
+        refine ⟨h1, tx', w1 ++ w, ?_, ?_⟩
+        · rw [sendAll2, hs]; simp only [h2]
+        · rw [h3, List.append_assoc]
+      · right
+        refine ⟨h1, j + 1, t1, w1 ++ w, by simp; omega, ?_, ?_⟩
+        · rw [List.take_succ_cons, sendAll2, hs]; simp only [h2]
+        · rw [h3, List.append_assoc, show idx + 1 + j = idx + (j + 1) by omega]
+
+/-- `Send(vector)` after `Send(vector)`, whatever each returns: final state, everything written, and the arrays
+    whose `Send` returned true -/
+def sendArrSeq (md : Mode) (cr : Crypto) (iv : Bytes) (sz : Int → Nat) :
+    Tx2 → List (List Int) → Tx2 × Bytes × List (List Int)
+  | tx, [] => (tx, [], [])
+  | tx, a :: rest =>
+    let r := sendArr md cr iv tx a ((arrItems md a).map (fun m => sz (tmpOf md m)))
+    let s := sendArrSeq md cr iv sz r.2.1 rest
+    (s.1, r.2.2 ++ s.2.1, if r.1 then a :: s.2.2 else s.2.2)
+
+theorem arrItems_length (md : Mode) (a : List Int) :
+    (arrItems md a).length = a.length + (if md.delim then 1 else 0) := by
+  unfold arrItems; split <;> simp
+
+theorem sendArrSeq_closed (md : Mode) (hcls : md.cls = .select) (cr : Crypto) (iv : Bytes) (sz : Int → Nat) :
+    ∀ (atts : List (List Int)) (tx : Tx2), tx.isOpen = false → (∀ a ∈ atts, 1 ≤ a.length) →
+      sendArrSeq md cr iv sz tx atts = (tx, [], []) := by
+  intro atts
+  induction atts with
+  | nil => intro tx _ _; rfl
+  | cons a rest ih =>
+    intro tx h hne
+    have ha := hne a (by simp)
+    have hitems : ∃ x xs, arrItems md a = x :: xs := by
+      cases hi : arrItems md a with
+      | nil => have := arrItems_length md a; rw [hi] at this; simp at this; omega
+      | cons x xs => exact ⟨x, xs, rfl⟩
+    obtain ⟨x, xs, hx⟩ := hitems
+    have hsend : sendArr md cr iv tx a ((arrItems md a).map (fun m => sz (tmpOf md m))) = (false, tx, []) := by
+      unfold sendArr
+      rw [hx, List.map_cons, sendArrGo]
+      simp only [hcls, beq_self_eq_true, if_true, List.headD_cons]
+      rw [closed_link_silent_select md cr iv tx x _ h]
+      simp only [h, Bool.false_and]
+      cases tx; simp_all
+    rw [sendArrSeq]
+    simp only [hsend, ih tx h (fun b hb => hne b (by simp [hb]))]
+    simp
+
+theorem sendArrSeq_sub (md : Mode) (cr : Crypto) (iv : Bytes) (sz : Int → Nat) :
+    ∀ (atts : List (List Int)) (tx : Tx2), ∀ a ∈ (sendArrSeq md cr iv sz tx atts).2.2, a ∈ atts := by
+  intro atts
+  induction atts with
+  | nil => intro tx a h; simp [sendArrSeq] at h
+  | cons b rest ih =>
+    intro tx a h
+    rw [sendArrSeq] at h
+    simp only [] at h
+    split at h
+    · rcases List.mem_cons.mp h with rfl | h
+      · simp
+      · exact List.mem_cons_of_mem _ (ih _ a h)
+    · exact List.mem_cons_of_mem _ (ih _ a h)
+
+/-- what any sequence of `Send(vector)`s of arrays of a common size `k ≥ 1` leaves on the link: exactly what
+    single `Send`s of the values of the accepted arrays write, followed by at most an incomplete array -/
+theorem sendArrSeq_spec (md : Mode) (hcls : md.cls = .select) (cr : Crypto) (iv : Bytes) (sz : Int → Nat)
+    (k : Nat) (hk : 1 ≤ k) :
+    ∀ (atts : List (List Int)) (tx : Tx2), (∀ a ∈ atts, a.length = k) →
+      ∃ tl tx1, sendAll2 md cr iv sz tx (encArrs md (sendArrSeq md cr iv sz tx atts).2.2 ++ tl) =
+          some (tx1, (sendArrSeq md cr iv sz tx atts).2.1) ∧
+        tl.length < k + (if md.delim then 1 else 0) := by
+  intro atts
+  induction atts with
+  | nil =>
+    intro tx _
+    exact ⟨[], tx, by simp [sendArrSeq, encArrs, sendAll2], by simp only [List.length_nil]; omega⟩
+  | cons a rest ih =>
+    intro tx hsz
+    have hak : a.length = k := hsz a (by simp)
+    have hrest : ∀ b ∈ rest, b.length = k := fun b hb => hsz b (by simp [hb])
+    rw [sendArrSeq]
+    simp only []
+    unfold sendArr
+    rcases sendArrGo_select md hcls cr iv sz (arrItems md a) 0 tx [] with ⟨h1, tx', w, h2, h3⟩ | ⟨h1, j, t1, w, hj, h2, h3⟩
+    · -- accepted
+      rw [h3]
+      simp only [if_true, List.nil_append]
+      obtain ⟨tl, tx1, h4, h5⟩ := ih tx' hrest
+      refine ⟨tl, tx1, ?_, h5⟩
+      rw [encArrs_cons, List.append_assoc]
+      exact sendAll2_append md cr iv sz _ _ tx tx' tx1 w _ h2 h4
+    · rw [h3]
+      simp only [Bool.false_eq_true, if_false, List.nil_append, Nat.zero_add]
+      by_cases hj0 : j = 0
+      · -- refused at its first item: nothing written, the link is as it was
+        subst hj0
+        simp only [List.take_zero, sendAll2, Option.some.injEq, Prod.mk.injEq] at h2
+        obtain ⟨rfl, rfl⟩ := h2
+        have : ({ tx with isOpen := tx.isOpen && (0 == 0) } : Tx2) = tx := by cases tx; simp
+        rw [this]
+        obtain ⟨tl, tx1, h4, h5⟩ := ih tx hrest
+        exact ⟨tl, tx1, by simpa using h4, h5⟩
+      · -- a part of the array is on the link, which is closed now
+        have hcl : ({ t1 with isOpen := t1.isOpen && (j == 0) } : Tx2).isOpen = false := by
+          simp [hj0]
+        rw [sendArrSeq_closed md hcls cr iv sz rest _ hcl (fun b hb => by rw [hrest b hb]; exact hk)]
+        refine ⟨(arrItems md a).take j, t1, by simpa [encArrs] using h2, ?_⟩
+        rw [List.length_take, ← hak, ← arrItems_length]; omega
+
+/-- **arrays_accepted_prefix** (select class, library as repaired by a324ab4; the array analogue of
+    `nb_accepted_prefix`).  `n` senders, each making ANY sequence of `Send(vector)` calls for arrays of the
+    common size `k ≥ 1` -- elements acceptable or not, so that calls may succeed, be refused at their first
+    element (nothing written) or fail later (a part of the array on the link, which is then closed and refuses
+    everything); the receiver asks for arrays of size `k` with any scheduler, under any fragmentation and
+    interleaving of the arrivals.  The arrays returned with `i_out = i` are a prefix of the arrays whose `Send`
+    returned true at sender `i`: no partial array, no mixed array, nothing of an array that was not accepted. -/
+theorem arrays_accepted_prefix (md : Mode) (hmd : ModeOk md) (hcls : md.cls = .select) (crs : Nat → Crypto)
+    (hcrs : ∀ i, CrOk md (crs i)) (sz : Int → Nat) (hsz : SzOk sz) (ivs : Nat → Bytes)
+    (hivs : ∀ i, (ivs i).length = md.blklen) (n : Nat) (hn : 0 < n) (k : Nat) (hk : 1 ≤ k)
+    (atts : Nat → List (List Int)) (hsize : ∀ i a, a ∈ atts i → a.length = k)
+    (words : List Nat) (ops : List MOp) :
+    ∀ i, (arun md crs n (fun _ => k)
+        (aworldOf n (fun i => (sendArrSeq md (crs i) (ivs i) sz {} (atts i)).2.1) words) ops).got i
+      <+: (sendArrSeq md (crs i) (ivs i) sz {} (atts i)).2.2 := by
+  choose tl tx1 h1 h2 using fun i => sendArrSeq_spec md hcls (crs i) (ivs i) sz k hk (atts i) {} (hsize i)
+  have hspec := fun i => sendAll2_spec md (crs i) (ivs i) sz _ {} (tx1 i) _ (h1 i)
+  have hw : (fun i => (sendArrSeq md (crs i) (ivs i) sz {} (atts i)).2.1) =
+      (fun i => wireOf md (crs i) sz (ivs i)
+        (encArrs md (sendArrSeq md (crs i) (ivs i) sz {} (atts i)).2.2 ++ tl i)) := by
+    funext i
+    rw [(hspec i).2]; simp [wireOf]
+  rw [hw]
+  intro i
+  exact (arrays_prefix_general md hmd crs hcrs sz hsz ivs hivs n hn
+    (fun i => (sendArrSeq md (crs i) (ivs i) sz {} (atts i)).2.2) tl (fun i => (hspec i).1) (fun _ => k)
+    (fit_uniform md n k _ tl
+      (fun i a ha => hsize i a (sendArrSeq_sub md (crs i) (ivs i) sz (atts i) {} a ha)) h2)
+    words ops i).1
 
 /-! ## the statements under their C13 names -/
 
